@@ -32,16 +32,27 @@ the live Python:
   the non-termination witness `sp2_degenerate_never_stops`, `sp2_capped_terminates`;
 * `padding_shift_gershgorin`.
 
+Termination.  The SCF loops are `for` loops (`loop_bounded`).  `SP2` is
+`while notconverged.any() and k < SP2_MAX_ITER` since the F4 fix (`sp2_live_bounded`); before it
+the loop was uncapped and `sp2_degenerate_never_stops` is the spectrum on which it never returned.
+In the live code that theorem means: on such a spectrum `SP2` runs exactly `SP2_MAX_ITER` bodies
+and returns the un-purified `a0` through the cap, with no flag of its own
+(`sp2_degenerate_hits_cap`).  The SCF-level theorems above are kernel-agnostic, so they still
+hold with that `SP2` as `make_Pnew`: a molecule is reported converged only if `|ΔE|`, `‖P−Pold‖`
+pass on the returned state.  What is lost when the cap is hit is only the *idempotency* guarantee,
+which comes from `sp2_is_aufbau` (rule met), not from `get_error`.
+
 What is **not** a theorem of the code (see the remarks at the corresponding theorems):
-* "every call returns in bounded time" is FALSE with SP2 switched on: the `while` of `SP2` has no
-  cap and `sp2_degenerate_never_stops` is a spectrum on which the stopping rule is never met;
 * "never silently returned as converged" needs an *ordered* scalar: with IEEE NaN every `>` of
   `get_error` is `False`, so a molecule whose energy became NaN is returned **converged**
   (`unordered_errors_reported_converged`; reproduced on the real `get_error` through the driver);
 * the iteration cap of `scf_forward0/2` is `MAX_ITER + 1` bodies, not `MAX_ITER` (`loop_bounded`);
 * the DIIS part of the test is evaluated on the density *before* the last update (it is whatever
   `Kernels.diisErr` reads from the state; in `scf_forward2` that is `max|F(P_k)P_k − P_kF(P_k)|`
-  while `P_{k+1}` is returned).
+  while `P_{k+1}` is returned);
+* with `scf_backward == 2` (`backward=True`) `scf_forward0/2` update the whole batch, not
+  `P[notconverged]`: rows of converged molecules keep moving (outside the model, see
+  `Model/ScfControl.lean`).
 -/
 namespace C03
 open ScfControl
@@ -81,6 +92,8 @@ theorem sp2_eps_tied :
   constructor <;>
     (rw [abs_lt]; constructor <;>
       norm_num [Generated.Constants.SP2_EPS_FLOAT64_MAX, Generated.Constants.SP2_EPS_FLOAT64_MIN])
+theorem sp2_max_iter_value : Generated.Constants.SP2_MAX_ITER = 200 := by decide
+theorem sp2_max_iter_tied : SP2Spec.SP2_MAX_ITER = Generated.Constants.SP2_MAX_ITER := by decide
 theorem padding_shift_constants :
     Generated.Constants.PADDING_EIGENSHIFT_START_FACTOR = 1 ∧
     0 < Generated.Constants.PADDING_EIGENSHIFT_INCREMENT := by
@@ -544,11 +557,11 @@ theorem sp2_is_aufbau (xs : List ℝ) (hx : ∀ x ∈ xs, 0 ≤ x ∧ x ≤ 1) (
   obtain ⟨hd, hc⟩ := stop_count hs' heps hstop
   exact ⟨hr.len, hr.unit, hd, hc, fun i j hij hi => lt_of_lt_of_le hi (hr.order i j hij)⟩
 
-/-- **Non-termination witness.**  `a` filled levels, two *equal* occupations `h` straddling the
-    Fermi level (`nocc = a + 1`), `b` empty levels — e.g. a degenerate HOMO/LUMO pair, or the zero
-    rows of a zero-padded batch.  For every threshold `eps ≤ 0.1` and every amount of fuel the
-    float64 stopping rule is not met: the uncapped Python `while` does not terminate.
-    (Any `h`, even outside `[0,1]`.) -/
+/-- **The stopping rule is never met** on: `a` filled levels, two *equal* occupations `h`
+    straddling the Fermi level (`nocc = a + 1`), `b` empty levels — a degenerate HOMO/LUMO pair, or
+    (before the padding shift of the F4 fix) the zero rows of a zero-padded batch.  For every
+    threshold `eps ≤ 0.1`, every amount of fuel and any `h` (even outside `[0,1]`).  This is the
+    witness of the former non-termination of the uncapped `while`. -/
 theorem sp2_degenerate_never_stops (a b : ℕ) (h eps : ℝ) (heps : eps ≤ 0.1) (fuel : ℕ) :
     (loop rabs eps ((a + 1 : ℕ) : ℝ) fuel (init rabs ((a + 1 : ℕ) : ℝ) (deg a b h))).2 = false := by
   apply deg_never_stops a b eps heps fuel _ h rfl
@@ -556,11 +569,30 @@ theorem sp2_degenerate_never_stops (a b : ℕ) (h eps : ℝ) (heps : eps ≤ 0.1
   rw [tr_deg]; push_cast; congr 1; ring
 
 /-- the same for the user-facing entry point: the clamp forces `eps ≤ 1e-3`, so *no* user
-    threshold makes `SP2` terminate on such a spectrum -/
+    threshold makes the rule fire on such a spectrum -/
 theorem sp2_degenerate_never_stops_any_eps (a b : ℕ) (h eps : ℝ) (fuel : ℕ) :
     (sp2Spectrum rabs eps ((a + 1 : ℕ) : ℝ) fuel (deg a b h)).2 = false :=
   sp2_degenerate_never_stops a b h (clampEps eps)
     (le_trans (clampEps_le eps) (by norm_num)) fuel
+
+/-- in the live (capped) `SP2`: on such a spectrum the loop is left through the cap after exactly
+    `SP2_MAX_ITER` bodies, for every user threshold -/
+theorem sp2_degenerate_hits_cap (a b : ℕ) (h eps : ℝ) :
+    (sp2 rabs eps ((a + 1 : ℕ) : ℝ) (deg a b h)).2 = false ∧
+    (sp2 rabs eps ((a + 1 : ℕ) : ℝ) (deg a b h)).1.k = Generated.Constants.SP2_MAX_ITER := by
+  have h1 := sp2_degenerate_never_stops_any_eps a b h eps SP2_MAX_ITER
+  refine ⟨h1, ?_⟩
+  have := loop_false_k rabs (clampEps eps) ((a + 1 : ℕ) : ℝ) SP2_MAX_ITER _ h1
+  rw [← sp2_max_iter_tied]
+  simpa [sp2, sp2Spectrum, init] using this
+
+/-- padding orbitals after the `hN` shift of `make_Pnew_factory` have scaled occupation exactly
+    `0`; they stay at exactly `0` in every iteration (and are therefore never among the occupied) -/
+theorem sp2_padding_stays_empty (nocc : ℝ) (xs : List ℝ) (i k : ℕ) (h : xs.getD i 0 = 0) :
+    ((iter rabs nocc)^[k] (init rabs nocc xs)).x.getD i 0 = 0 := by
+  induction k with
+  | zero => exact h
+  | succ k ih => rw [Function.iterate_succ_apply']; exact step_zero nocc _ i ih
 
 /-- with an iteration cap the model returns within `fuel` bodies (any scalar type) -/
 theorem sp2_capped_terminates {α : Type} [Add α] [Sub α] [Mul α] [Div α] [OfScientific α]
@@ -568,6 +600,12 @@ theorem sp2_capped_terminates {α : Type} [Add α] [Sub α] [Mul α] [Div α] [O
     (sp2Spectrum abs eps nocc fuel xs).1.k ≤ fuel := by
   have := loop_k_le abs (clampEps eps) nocc fuel (init abs nocc xs)
   simpa [sp2Spectrum, init] using this
+
+/-- the live `SP2` executes at most `SP2_MAX_ITER` bodies -/
+theorem sp2_live_bounded {α : Type} [Add α] [Sub α] [Mul α] [Div α] [OfScientific α]
+    [OfNat α 0] [LT α] [DecidableLT α] (abs : α → α) (eps nocc : α) (xs : List α) :
+    (sp2 abs eps nocc xs).1.k ≤ Generated.Constants.SP2_MAX_ITER := by
+  rw [← sp2_max_iter_tied]; exact sp2_capped_terminates abs eps nocc SP2_MAX_ITER xs
 
 end SP2
 
